@@ -51,15 +51,66 @@ class SectAu(Automaton):
             self.defs[f['key']] = F.single_defs(f)
         return self.defs[f['key']]
 
+    def _is_param(self, f, local):
+        """is this local the Section parameter, or a copy of it (the argument of a helper spliced into this body)?"""
+        defs = self._defs(f)
+        for _ in range(8):
+            if local == self.param:
+                return True
+            d = defs.get(local)
+            if d and d[0] == 'rv' and d[1]['k'] == 'use' and d[1]['x']['k'] in ('copy', 'move') and not d[1]['x']['place']['proj']:
+                local = d[1]['x']['place']['local']
+                continue
+            if d and d[0] == 'rv' and d[1]['k'] == 'ref' and not d[1]['place']['proj']:
+                local = d[1]['place']['local']
+                continue
+            return False
+        return False
+
     def on_edge(self, q, f, bi, t, value, target, env):
         sec, pay = q
         e = F.expr(f, self._defs(f), t['discr'])
-        if e[0] == 'discr' and e[1]['local'] == self.param and not e[1]['proj']:
+        if e[0] == 'discr' and not e[1]['proj'] and self._is_param(f, e[1]['local']):
             name = self.names.get(value, 'other') if value is not None else 'other'
             if sec is not None and sec != name:
                 return 'PRUNE'
             return (name, pay)
         return q
+
+    def section_test(self, q, f, t):
+        """`section == Section::X` / `!=` on the parameter: [(state, truth)] or None"""
+        p = F.call_path(t) or ''
+        if not (p.endswith('constants::Section as std::cmp::PartialEq>::eq') or p.endswith('constants::Section as std::cmp::PartialEq>::ne')) or len(t['args']) != 2:
+            return None
+        defs = self._defs(f)
+        sides = [F.expr(f, defs, a) for a in t['args']]
+        const = None
+        has_param = False
+        for a, e in zip(t['args'], sides):
+            x = e
+            while x[0] in ('ref', 'cast') and len(x) > 1 and isinstance(x[-1], tuple):
+                x = x[-1]
+            if e[0] == 'agg' and e[1] == 'constants::Section':
+                const = e[2]
+            elif x[0] == 'agg' and x[1] == 'constants::Section':
+                const = x[2]
+            else:
+                l = F.op_local(a)
+                if l is not None and self._is_param(f, l):
+                    has_param = True
+        if const is None:
+            # the constant may be a promoted `&Section::X`: look at the roots
+            for a in t['args']:
+                for r in F.roots(f, defs, a):
+                    if r[0] == 'agg' and r[1] == 'constants::Section':
+                        const = r[2]
+        if const is None or not has_param:
+            return None
+        sec, pay = q
+        is_eq = p.endswith('::eq')
+        if sec is not None:
+            return [(q, 1 if (sec == const) == is_eq else 0)]
+        return [((const, pay), 1 if is_eq else 0), (q, 0 if is_eq else 1)]
 
 
 class CountAu(SectAu):
@@ -117,6 +168,9 @@ class InsertAu(SectAu):
         return (sec, (own, sh, ninc, incok))
 
     def on_call(self, q, f, bi, t, env, flow):
+        st_ = self.section_test(q, f, t)
+        if st_ is not None:
+            return st_
         sec, (own, sh, ninc, incok) = q
         p = F.call_path(t) or ''
         if p.endswith('ParsedPacket::rrcount_inc'):
@@ -293,6 +347,7 @@ def run(ctx):
             flow = PathFlow(facts, InsertAu(facts, 2))
             exits = flow.summary(fn, InsertAu.init)
             bysec = {}
+            sem_table = None
             for (q, kind) in exits:
                 if kind == 'Ok' and q[0] in LATER:
                     bysec.setdefault(q[0], set()).add(q[1])
@@ -300,6 +355,15 @@ def run(ctx):
                 pays = bysec.get(sec, set())
                 want_sh = frozenset(LATER[sec]) | (frozenset({'offset_edns'}) if LATER[sec] else frozenset())
                 ok = bool(pays) and all(p[0] == OWN[sec] and p[1] == want_sh for p in pays)
+                if not ok:
+                    # written another way than or() / map(): decide the same table from what the function does to the fields
+                    if sem_table is None:
+                        from rules import offsets
+                        sem_table = offsets.insert_table(facts)
+                    tab, why_ = sem_table
+                    if tab is not None and tab.get(sec, (False,))[0]:
+                        ok = True
+                        ctx.instance('C09.c', 'insert_rr(%s): offsets decided from the E4 summary (%d successful case(s)): own start present, later sections and the OPT area moved by the inserted length' % (sec, len(tab[sec][1])), ok=True, site=f['at'])
                 ctx.instance('C09.c', 'insert_rr(%s): own start %s recorded, shifts %s' % (sec, OWN[sec], sorted(want_sh)), ok=ok, site=f['at'])
                 if not ok:
                     ctx.violation('C09.c', fn, 'shift-table-' + sec, 'insert_rr(Section::%s) must record %s with or(Some(insertion_offset)) and shift exactly %s; found %s'
